@@ -348,6 +348,16 @@ pub fn c04(a: &Analysis<'_>, out: &mut Vec<Violation>) {
 fn scenario_cbs<'b>(a: &'b Analysis<'_>, name: &str) -> Vec<&'b CbEntry> {
     let sc = &a.st.scenarios[name];
     let own: BTreeSet<String> = sc.steps.iter().filter(|(_, _, bg)| !*bg).map(|(t, _, _)| crate::plan::site_step(t)).collect();
+    // (position-less plans may use one step text in two scenarios: a callback of such a step cannot be
+    // attributed by its site, so it is not attributed at all)
+    let elsewhere: BTreeSet<String> = a
+        .st
+        .scenarios
+        .values()
+        .filter(|o| o.name != name)
+        .flat_map(|o| o.steps.iter().map(|(t, _, _)| crate::plan::site_step(t)))
+        .collect();
+    let own: BTreeSet<String> = own.difference(&elsewhere).cloned().collect();
     a.h.cb
         .iter()
         .filter(|c| match c.kind {
